@@ -4,6 +4,7 @@ mod main_loop;
 #[allow(dead_code)]
 mod util;
 mod dom;
+mod e2e;
 
 fn main() {
     main_loop::main_loop(dom::run_case);
